@@ -508,12 +508,19 @@ func lgPaths(stmts []ast.Stmt, cnt func(ast.Node) int) (fall, done []int, ok boo
 				if cc.List == nil {
 					hasDefault = true
 				}
-				for _, b := range cc.Body {
-					if br, isBr := b.(*ast.BranchStmt); isBr && br.Tok == token.FALLTHROUGH {
-						ok = false
+				clause := cc.Body
+				for bi, b := range clause {
+					if br, isBr := b.(*ast.BranchStmt); isBr {
+						if br.Tok == token.BREAK && br.Label == nil {
+							clause = clause[:bi] // an unlabelled break ends the clause: what follows the switch comes next
+							break
+						}
+						if br.Tok == token.FALLTHROUGH {
+							ok = false
+						}
 					}
 				}
-				f, d, k := lgPaths(cc.Body, cnt)
+				f, d, k := lgPaths(clause, cnt)
 				ok = ok && k
 				sFall = append(sFall, f...)
 				sDone = append(sDone, d...)
